@@ -111,6 +111,7 @@ func actSpecs(rank int) []actSpec {
 }
 
 func runC14(c *fw.Ctx) {
+	deeperBounds(!c.Quick())
 	for i := 0; i < c.Pick(600, 6000); i++ { // one long dimension (127..2049), Softmax along it or along a short one
 		c.Case(func(k *fw.K) {
 			shape, long := LongShape(k.Rng, 3, 2049)
